@@ -32,7 +32,8 @@ META = dict(
               "potential is a z3 term compared with the specification; rejection explored over a symbolic Int row count",
 )
 
-LABELS = [("A", "B"), ("Xe", "O"), ("Si", "Si")]
+# (atom labels are up to 8 characters: two 8-character labels leave no blank between the fields of a block header)
+LABELS = [("A", "B"), ("O", "Ca_shell"), ("Mg_core1", "Mg_core2")]
 
 
 IntCore = common.IntCore
